@@ -1,4 +1,5 @@
 import BigDec.Model.Hash
+import BigDec.Proofs.EstCode
 import BigDec.Proofs.Cmp
 /-! # C03 — Hash agrees with equality -/
 namespace BigDec
@@ -90,6 +91,11 @@ theorem C03_zero (s : Int) : hashData ⟨0, s⟩ = (false, [0]) := by
 theorem C03_hash_eq_of_eq {pre : Nat → Nat} (hp : PreOK pre) (a b : Dec) (ha : Small a) (hb : Small b)
     (h : eqDec pre a b = true) : hashData a = hashData b :=
   C03_hash_eq_of_value_eq a b ((eqDec_spec hp a b ha hb).mp h)
+
+/-- the same with the code's own f64 estimate (no premise about floating point) -/
+theorem C03_hash_eq_of_eq_code (a b : Dec) (ha : Small a) (hb : Small b)
+    (h : eqDec F64.preCode a b = true) : hashData a = hashData b :=
+  C03_hash_eq_of_eq preCode_PreOK a b ha hb h
 
 /-- the model is total: every index / count it uses is a natural number by construction
     (`(-scale).toNat` zeros are appended only when `scale < 0`) -/
